@@ -120,6 +120,24 @@ theorem garbage_never_succeeds {dec : Decoder} {role : Role} {cfg : Cfg} {pool :
   · exact outgoing_ok h
   · exact incoming_ok h
 
+/-- **no error path encodes as Null**: on every input, a side that puts ack(Null) on the wire has
+received a complete credentials frame that its checker accepted. (A rejecting side therefore never
+makes its peer read a success: this is what `same_verdict` rests on under hostile credentials.) -/
+theorem null_ack_only_after_acceptance {dec : Decoder} {role : Role} {cfg : Cfg} {pool : PoolObj} {s : Bytes} {e : End}
+    (h : WFrame.ack 0 ∈ (runSide dec role cfg pool s e).wrote) : AcceptedCreds dec cfg pool s e := by
+  cases role
+  · exact outgoing_null_ack h
+  · exact incoming_null_ack h
+
+/-- the wire codes of every rejection path of the two real checkers (regenerated from
+`net/secureservice/credential.go` + the `Err*` table of `handshake.go`) are the ones the model uses … -/
+theorem checker_error_codes_match :
+    noVerifyErrCodes = [6, 6] ∧ verifierErrCodes = [6, 4, 3, 2, 2, 6] ∧
+    errUnexpectedCode = 1 ∧ errUnexpectedPayloadCode = 3 := by decide
+
+/-- … and none of them is Error_Null (a `HandshakeError{Err: …}` without a code would be) -/
+theorem no_error_path_encodes_null : ∀ c ∈ noVerifyErrCodes ++ verifierErrCodes, c ≠ 0 := by decide
+
 /-- a side that is still waiting when the input ends is only released by its context: never a
 success (cancellation / deadline at any point of the exchange) -/
 theorem stalled_side_never_succeeds (dec : Decoder) (role : Role) (cfg : Cfg) (pool : PoolObj) (s : Bytes)
